@@ -567,7 +567,7 @@ class Contract(object):
                  loops=None, returns=None, modifies=None, reads=None, setup=None, inline=True,
                  use=(), kwargs=None, bounded=None, note=None, max_paths=None, max_unroll=None,
                  hooks=None, sentinel_of=None, expect_fail=False, call=None, timeout_ms=None,
-                 ghost=None, apply_at_calls=False, cases=None, budget_s=None, assumed=False, bounds=()):
+                 ghost=None, apply_at_calls=False, cases=None, budget_s=None, assumed=False, bounds=(), native=True):
         self.target = target
         self.prop = prop
         self.params = params
@@ -598,6 +598,7 @@ class Contract(object):
         self.budget_s = budget_s
         self.assumed = assumed
         self.bounds = list(bounds)
+        self.native = native
 
 
 REGISTRY = []
@@ -1018,7 +1019,14 @@ def apply_contract(ex, c, f, args, kwargs):
     names = [x.arg for x in node.args.args]
     env = {}
     for i, a in enumerate(args):
-        env[names[i]] = a
+        if i < len(names):
+            env[names[i]] = a
+    if node.args.vararg is not None:
+        rest = list(args[len(names):])
+        if rest and isinstance(rest[-1], SymVarArgs):
+            env[node.args.vararg.arg] = rest[-1].slist
+        else:
+            env[node.args.vararg.arg] = STuple(rest)
     for k, v in kwargs.items():
         env[k] = v
     nd = len(f.defaults)
@@ -1047,7 +1055,12 @@ def apply_contract(ex, c, f, args, kwargs):
         if k == 0:
             if isinstance(c.returns, str):
                 n_nd = len(ex.nondet)
-                res = eval_clause(ex, c.returns, env, mod)
+                try:
+                    res = eval_clause(ex, c.returns, env, mod)
+                except PyRaise as pr:
+                    del ex.nondet[n_nd:]
+                    ex.nondet.append(('call:' + c.target, STuple(('raise', pr.exc.cls, pr.exc.fields.get('errno')))))
+                    raise
                 del ex.nondet[n_nd:]      # the stub returns the value itself
             else:
                 res = c.returns.sym(ex, 'ret!' + c.name.split(':')[-1]) if c.returns is not None else None
@@ -1063,6 +1076,7 @@ def apply_contract(ex, c, f, args, kwargs):
             if ex.check() == z3.unsat:
                 raise PathEnd()
             ex.nondet.append(('call:' + c.target, STuple(('return', res))))
+            ex.ghost.setdefault('call_ret', {})[c.name] = deep_copy(res, {})
             return res
         ename, clauses = rs[k - 1]
         cls = ex.world.resolve_class(ex, ename)
